@@ -751,6 +751,15 @@ def r4_best_trials(ctx) -> None:
   fi = ci.methods.get('GetBestTrials')
   if fi is None:
     raise AnalysisError('InRamPolicySupporter.GetBestTrials not found')
+  # the query is recomputed from the current trials: it keeps no memo (trials are handed out by reference and completed
+  # in place, so nothing the supporter could key a cache on changes when the answer does)
+  memo = [x for x in ast.walk(fi.node) if isinstance(x, (ast.Assign, ast.AugAssign)) and any(
+      flow.root_name(t) == 'self' for t in (x.targets if isinstance(x, ast.Assign) else [x.target]))]
+  memo += [d for d in fi.node.decorator_list if 'cache' in unparse(d, 0)]
+  ctx.check(not memo, 'R4', 'GetBestTrials keeps no memo', memo[0] if memo else fi.node, 'no store to self.* and no caching decorator',
+            f'`{unparse(memo[0], 60) if memo else ""}`: the best-trial query remembers an earlier answer; trials obtained from the supporter '
+            'are completed in place, which no invalidation hook sees, so a later query returns trials that are no longer optimal',
+            construct='best-trials-memo', func=fi.qualname)
   flip = any(isinstance(k, ast.keyword) and k.arg == 'flip_sign_for_minimization_metrics'
              and isinstance(k.value, ast.Constant) and k.value.value is True for k in ast.walk(fi.node))
   ctx.check(flip, 'R4', 'labels with flip_sign_for_minimization_metrics=True', fi.node,
